@@ -180,6 +180,7 @@ def check_property(pid, tier, seed):
     errors = []          # checker errors (exit 3)
     unsupported = []     # (target, behaviour, reason)
     functions = []
+    assumed_behaviours = []
     for target in plan["targets"]:
         c = ex.store.contracts.get(target)
         if c is None:
@@ -197,6 +198,9 @@ def check_property(pid, tier, seed):
             errors.append(str(e))
             continue
         for b in c.behaviours:
+            if c.behaviours[b].trusted:
+                assumed_behaviours.append("%s[%s]" % (target, b))
+                continue
             before = len(ex.obligations)
             try:
                 ex.verify(c, b)
@@ -389,6 +393,9 @@ def check_property(pid, tier, seed):
             "obligations_of_other_properties_in_cone_not_counted": other,
             "undecided": [o.id for o, _ in undecided],
             "inlined_helpers": sorted(ex.inlined),
+            "assumed_contracts_used": sorted({"%s[%s]" % tb for tb in ex.used_callee_clauses
+                                              if ex.store.contracts[tb[0]].trusted or ex.store.contracts[tb[0]].behaviours[tb[1]].trusted}
+                                             | set(assumed_behaviours)),
             "lemmas_used": sorted(ex.used_lemmas),
             "composition_hypotheses": comp_used,
             "bounded_stand_ins": bounded,
